@@ -291,3 +291,6 @@ def check(chk, repo):
     chk.explanation = EXPLANATION
     rep = Rep(chk, repo)
     check_scan(chk, rep, repo)
+    # premise: the weights that compete are the configured dissimilarity (flag, matrix and node pair of every selector)
+    from .c10 import check_walk_selectors
+    check_walk_selectors(rep, repo, 'model', 'SupervisedOPF', 'predict', set(), pre="WEIGHT:")
